@@ -412,6 +412,8 @@ func (b *BlockWise[C]) Handle(w *responsewriter.ResponseWriter[C], r *pool.Messa
 		b.errors(fmt.Errorf("continueSendingMessage(%v): %w", r, err))
 		return
 	}
+	// the block answers r: unless r says that its class is not of interest (RFC 7967)
+	w.DropIfNotOfInterest()
 	// For codes GET,POST,PUT,DELETE, we want them to wait for pairing response and then delete them when the full response comes in or when timeout occurs.
 	if !more && sendingMessageCode > codes.DELETE {
 		b.sendingMessagesCache.Delete(tokenStr)
